@@ -1,4 +1,4 @@
-HOOK_COMMITS = []
+HOOK_COMMITS = ["c7ee5a1"]
 ENGINES = [
  {"name": "vf", "path": "vf/", "serves_properties": [],
   "kind_free_text": "jaxpr interpreter (JX) and NumPy path explorer (PX) over symbolic scalar domains, decided by z3 (nlsat / LRA / LIA / QF_FP)"},
@@ -35,5 +35,28 @@ CHECKS["C03"] = dict(level="model_checking", design_ref="DESIGN.md 5/C03",
          "overlap - traced and executed symbolically; obligation fb_g*ovlp != <psi_T|L_g|phi> unsat for every g at each bounded shape, "
          "restricted and unrestricted entries, batched order for every n_batch.",
     note=_WF_NOTE)
-for k in ("C01","C02","C03"): NA.pop(k, None)
+CHECKS["C04"] = dict(level="model_checking", design_ref="DESIGN.md 5/C04",
+    technique="jaxpr symbolic execution over graded series in sqrt(dt) with exact Gaussian moments + z3; weight rule in z3 QF_FP",
+    text="Part A: the real propagate() (importance function read through the guarded hook), _apply_trotprop and "
+         "_build_propagation_intermediates are traced with dt as an input and executed over series in s=sqrt(dt); for every "
+         "occupation-number component the exact Gaussian average of imp*phi'/<psi|phi'> has the same s^0..s^3 coefficients as "
+         "(1-dt(H-E_shift))phi/<psi|phi> (Fock oracle), i.e. the residual is O(dt^2), for all Hamiltonians, walkers, mean-field "
+         "shifts; the argument of theta equals exp(-sqrt(dt) sum (x-f)m) ovlp'/ovlp. Part B: in IEEE-754 the applied weight equals "
+         "w*clip(|imp| cos theta) with the NaN/window rule for every double.",
+    note=_WF_NOTE + " Series truncated at s^3 (orders beyond dt^2 outside the claim); part B havocks everything upstream of |imp| and cos(theta).")
+CHECKS["C09"] = dict(level="model_checking", design_ref="DESIGN.md 5/C09",
+    technique="inductive step in z3 QF_FP (IEEE-754 binary64) over the traced jaxpr with havocked upstream values",
+    text="One step of each propagator from an arbitrary pre-state satisfying the invariant (weights finite >= 0) with every upstream "
+         "quantity an arbitrary double under its IEEE contract: post-weights finite, >= 0, not NaN; factor in {0} u [1e-3,100]; dead stays "
+         "dead; shift finite while alive. One inductive step covers histories of any length. Candidates are reported only when a hostile "
+         "concrete input reproduces them on the real function.",
+    note="Trusted: z3 QF_FP; uninterpreted products with lemma instances, each lemma discharged against exact fpMul/fpDiv; JAX tracing. "
+         "Weights in (0,1e-300) outside the claim.")
+CHECKS["C15"] = dict(level="model_checking", design_ref="DESIGN.md 5/C15",
+    technique="symbolic execution of the traced jaxpr + z3 polynomial identities (congruence for every real C; invariance under Cayley-orthogonal C)",
+    text="rotate_orbs output equals C^T X C elementwise for every real matrix C and every h1/chol at norb 2,3; energies, force biases "
+         "and overlaps of rhf/uhf/ghf/noci are unchanged when Hamiltonian, trial and walker are rotated by an orthogonal matrix "
+         "(fully symbolic Cayley parametrisation at norb 2, exact rational instances at norb 3).",
+    note=_WF_NOTE)
+for k in ("C01","C02","C03","C04","C09","C15"): NA.pop(k, None)
 ENGINES[0]["serves_properties"] = sorted(CHECKS)
